@@ -1,5 +1,6 @@
 import LPVerif.Lemmas.CoreExec
 import LPVerif.Lemmas.Prof
+import LPVerif.Lemmas.ProfOwn
 /-!
 # C04 — statistics belong only to the function that actually ran
 
@@ -111,6 +112,21 @@ theorem twin_gets_fresh_block (dupes : List (Blk × Nat)) (taken : List Blk) (co
     simp only at this
     omega
   · simp only [Prof.padStep, h]
+
+/-- **registered code objects never share a bytecode**: in every state reachable from a fresh profiler (functions declared with
+    compiler-produced bytecode; any number of registrations and re-registrations of byte-identical functions), two entries of
+    `code_hash_map` with the same bytecode are the same code object — so a bucket row belongs to one function's label only,
+    every registered key is owned by exactly one entry, and an entry owns all keys of its bytecode -/
+theorem registered_bytecodes_distinct (ops : List Prof.Op) (hraw : ∀ op ∈ ops, Prof.DeclRaw op)
+    (p q : Prof.Code × List (Blk × Int)) (hp : p ∈ (Prof.St.init.run ops).chm) (hq : q ∈ (Prof.St.init.run ops).chm)
+    (hb : p.1.blk = q.1.blk) : p = q := by
+  have hown := (Prof.run_own ops Prof.St.init hraw Prof.init_own).ownV
+  exact Prof.entry_unique hown.codesNodup hp hq (hown.blkUnique p hp q hq hb)
+
+/-- … and buckets of lines that are not registered stay empty: nothing is recorded where `get_stats` does not look -/
+theorem unregistered_buckets_empty (ops : List Prof.Op) (hraw : ∀ op ∈ ops, Prof.DeclRaw op) (b : Blk) (c o : Int)
+    (h : (b, c) ∉ (Prof.St.init.run ops).core.abs.regs) : (Prof.St.init.run ops).core.abs.hits b c o = 0 :=
+  (Prof.run_own ops Prof.St.init hraw Prof.init_own).ownV.zero b c o h
 
 /-- **F-C04a witness**: block ⟨0,0⟩ line 2 is registered (function f); an *unregistered* byte-identical
     function running on the same line number (frame 9) produces events the callback cannot tell from f's:
